@@ -52,6 +52,15 @@ def main(tier, seed):
     bins = [("dev", vlib.build_harness("dev")), ("release", vlib.build_harness("release"))]
     progs = scenarios.error_scenarios(rng, 2000 if tier == "quick" else 30000)
     profcheck.run_scenarios(rep, "errors", progs, bins, PROP)
+    # the same errors as the shipped command-line program reports them: messages on stderr, exit status 65 / 70 / 0
+    import cli
+    usable = [r for r in rep.last_runs if r["done"] and not r["oom"] and not r["trig"] and ":host-" not in str(r.get("id", ""))
+              and "host_fail" not in yprog.program_src(r["prog"])]
+    usable = usable[:: max(1, len(usable) // (400 if tier == "quick" else 4000))]
+    ncli = 0
+    for prof in ("dev", "release"):
+        ncli += cli.run_files(rep, cli.build_cli(prof), prof, usable, "error scenario")
+    rep.coverage["programs_run_by_the_command_line_program"] = ncli
     # compile errors name the line of the offending token
     cases = compile_error_cases(rng, 600 if tier == "quick" else 6000)
     ncomp = 0
@@ -71,8 +80,26 @@ def main(tier, seed):
         if not first.startswith(want) or c["frag"] not in first:
             rep.violation("compile error for %r should be reported at line %d (%s), got %r" % (c["bad"], c["line"], c["frag"], first),
                           {"source": c["main"], "messages": run["messages"]})
+    # the command-line program on programs that do not compile: exit status 65 and exactly the compiler's messages on stderr
+    import os, tempfile, shutil
+    cdir = tempfile.mkdtemp(prefix="clice", dir=vlib.WORK)
+    clibin = cli.build_cli("dev")
+    replies = Pool(bins[0][1], "run").map(cases[:150])
+    for k, (c, r) in enumerate(zip(cases[:150], replies)):
+        if "runs" not in r or r["runs"][0].get("ok"):
+            continue
+        with open(os.path.join(cdir, "p%d.yl" % k), "w") as f:
+            f.write(c["main"])
+        rc, so, se = cli._run(clibin, ["p%d.yl" % k], cdir)
+        ncli += 1
+        want = "".join(m + "\n" for m in r["runs"][0]["messages"])
+        if rc != 65 or se != want or so != "":
+            rep.violation("a program that does not compile: the command-line program exits %r with stderr %r (stdout %r); expected exit 65 and %r"
+                          % (rc, se[-400:], so[-100:], want[-400:]), {"source": c["main"]})
+    shutil.rmtree(cdir, ignore_errors=True)
+    rep.coverage["programs_run_by_the_command_line_program"] = ncli
     rep.coverage["compile_error_cases"] = ncomp
-    rep.coverage["traces_validated_against_impl"] += ncomp
+    rep.coverage["traces_validated_against_impl"] += ncomp + ncli
     rep.coverage["exhaustive"] = False
     rep.sample({"kind": "error scenario", "source": yprog.program_src(progs[1][1])})
     rep.coverage["rule"] = ("seeded products: 23 failure kinds (every built-in failure class, thrown string / number / Error / user subclass, a host "
